@@ -36,27 +36,48 @@ func Replay(path string) int {
 	return f(d.Replay)
 }
 
+// Probe runs a JSON script of worker operations ([{"op":..,"args":..},..]) in one fresh worker and prints each answer.
 func Probe(args []string) int {
-	p := &kernel.Pool{N: 1, Boot: map[string]interface{}{}}
+	if len(args) < 1 {
+		fmt.Println("usage: probe script.json [bootargs-json]")
+		return 2
+	}
+	b, err := os.ReadFile(args[0])
+	if err != nil {
+		fmt.Println(err)
+		return 2
+	}
+	var steps []struct {
+		Op   string          `json:"op"`
+		Args json.RawMessage `json:"args"`
+	}
+	if err := json.Unmarshal(b, &steps); err != nil {
+		fmt.Println(err)
+		return 2
+	}
+	boot := map[string]interface{}{}
+	if len(args) > 1 {
+		_ = json.Unmarshal([]byte(args[1]), &boot)
+	}
+	p := &kernel.Pool{N: 1, Boot: boot}
 	w, err := p.BootWorker()
 	if err != nil {
 		fmt.Println(err)
 		return 2
 	}
 	defer w.Close()
-	var res json.RawMessage
-	T0 := int64(1700000000000)
-	evs := []json.RawMessage{
-		json.RawMessage(fmt.Sprintf(`{"timestamp":%d,"a":1,"b":"x"}`, T0)),
-		json.RawMessage(fmt.Sprintf(`{"timestamp":%d,"a":"str","n":{"k":2.5}}`, T0+1)),
+	for _, st := range steps {
+		var res json.RawMessage
+		var a interface{}
+		if len(st.Args) > 0 {
+			a = st.Args
+		}
+		err := w.Call(st.Op, a, &res)
+		fmt.Printf("%s %s\n  -> err=%v %s\n", st.Op, trunc(string(st.Args), 200), err, trunc(string(res), 1500))
+		if w.Dead() {
+			fmt.Println(w.StderrTail())
+			return 1
+		}
 	}
-	fmt.Println(w.Call("ingest", map[string]interface{}{"org": 0, "index": "p1", "events": evs}, &res), string(res))
-	fmt.Println(w.Call("flush", nil, nil))
-	q := map[string]interface{}{"org": 0, "index": "p1", "text": "*", "start": T0 - 1, "end": T0 + 1000, "size": 100}
-	fmt.Println(w.Call("query", q, &res), string(res))
-	fmt.Println(w.Call("rotate", nil, nil))
-	fmt.Println(w.Call("query", q, &res), string(res))
-	q["text"] = "* | stats count by a"
-	fmt.Println(w.Call("query", q, &res), string(res))
 	return 0
 }
